@@ -151,7 +151,7 @@ def main():
         ],
         "checks": checks,
         "not_applicable": na,
-        "notes": "All checks: exit 0 held within the stated bounds, 1 violation (replayed natively first), 2 inconclusive (timeout/OOM/tool error/vacuity) - never reported as a pass. Known findings: /verif/known_findings.txt.",
+        "notes": "All checks: exit 0 held within the stated bounds, 1 violation (replayed natively first), 2 inconclusive (timeout/OOM/tool error/vacuity) - never reported as a pass. Known findings: /verif/known_findings.txt (witness universes of listed certificate-engine findings and regression inputs of repaired ones: /verif/witnesses/<ID>/). Two engines: Kani/CBMC kernels of the real code (symbolic within stated bounds) and the certificate engine (z3 over all selections of what the real solver emitted, per universe of enumerated families - translation validation, never 'for all providers'); observations of real runs that need no solver (C04 panics/hangs, C05 support, C13 call log, C20 cache queries) are labelled as such and are never the deciding step of a claim. The repository carries genuine-defect repairs as `fix:` commits (F1-F3, F5-F11, F13); F4 and F12 are recorded findings.",
     }
     with open(os.path.join(os.path.dirname(os.path.dirname(os.path.abspath(__file__))), "MANIFEST.json"), "w") as f:
         json.dump(m, f, indent=1)
